@@ -32,13 +32,18 @@ for patch in sys.argv[2:]:
     try:
         facts = engine.extract(sc)
         out = {}
-        for p in ALL:
-            obl, new, listed = engine.run_property(p, "quick", facts_path=facts, quiet=True, write_evidence=False)
-            if new:
-                out[p] = [(o["key"], o["detail"][:160]) for o in new]
         if keep:
             os.makedirs(keep, exist_ok=True)
             shutil.copyfile(facts, os.path.join(keep, os.path.splitext(os.path.basename(patch))[0] + ".json"))
+        for p in ALL:
+            try:
+                obl, new, listed = engine.run_property(p, "quick", facts_path=facts, quiet=True, write_evidence=False)
+            except Exception as ex:
+                import traceback
+                out[p] = [("CRASH", traceback.format_exc()[-300:].replace("\n", " | "))]
+                continue
+            if new:
+                out[p] = [(o["key"], o["detail"][:160]) for o in new]
         os.remove(facts)
     finally:
         shutil.rmtree(sc, ignore_errors=True)
